@@ -78,7 +78,7 @@ def dfsFrom : (fuel : Nat) → List Ctx → Except PyErr (List Ctx)
     pure (c :: more)
 
 partial def sizeOf' : Node → Nat
-  | .elem _ _ cs => 1 + (cs.map sizeOf').sum
+  | .elem _ _ _ cs => 1 + (cs.map sizeOf').sum
   | _ => 1
 
 def nodeCount (n : Node) : Nat := sizeOf' n
